@@ -1,0 +1,205 @@
+//go:build verif
+// +build verif
+
+package leveldb
+
+import (
+	"bytes"
+	"fmt"
+
+	"github.com/syndtr/goleveldb/leveldb/errors"
+	"github.com/syndtr/goleveldb/leveldb/opt"
+	"github.com/syndtr/goleveldb/leveldb/storage"
+)
+
+// Exports for the manifest record codec (session_record.go) and for session.recover. Add-only.
+
+// VerifCompPtr, VerifDelTable: the fields of cpRecord / dtRecord (VerifTable carries those of atRecord).
+type VerifCompPtr struct {
+	Level int
+	IKey  []byte
+}
+
+type VerifDelTable struct {
+	Level int
+	Num   int64
+}
+
+// VerifRecord holds the fields of a sessionRecord. Has is the hasRec bit mask.
+type VerifRecord struct {
+	Has            int
+	Comparer       string
+	JournalNum     int64
+	PrevJournalNum int64
+	NextFileNum    int64
+	SeqNum         uint64
+	CompPtrs       []VerifCompPtr
+	Added          []VerifTable
+	Deleted        []VerifDelTable
+}
+
+// The tag numbers, for the harness.
+const (
+	VerifRecComparer       = recComparer
+	VerifRecJournalNum     = recJournalNum
+	VerifRecNextFileNum    = recNextFileNum
+	VerifRecSeqNum         = recSeqNum
+	VerifRecCompPtr        = recCompPtr
+	VerifRecDelTable       = recDelTable
+	VerifRecAddTable       = recAddTable
+	VerifRecPrevJournalNum = recPrevJournalNum
+)
+
+func verifRecordOf(p *sessionRecord) *VerifRecord {
+	v := &VerifRecord{
+		Has:            p.hasRec,
+		Comparer:       p.comparer,
+		JournalNum:     p.journalNum,
+		PrevJournalNum: p.prevJournalNum,
+		NextFileNum:    p.nextFileNum,
+		SeqNum:         p.seqNum,
+	}
+	for _, r := range p.compPtrs {
+		v.CompPtrs = append(v.CompPtrs, VerifCompPtr{Level: r.level, IKey: append([]byte{}, r.ikey...)})
+	}
+	for _, r := range p.addedTables {
+		v.Added = append(v.Added, VerifTable{Level: r.level, Num: r.num, Size: r.size,
+			Imin: append([]byte{}, r.imin...), Imax: append([]byte{}, r.imax...)})
+	}
+	for _, r := range p.deletedTables {
+		v.Deleted = append(v.Deleted, VerifDelTable{Level: r.level, Num: r.num})
+	}
+	return v
+}
+
+// verifRecordFrom builds a sessionRecord through its setters: a scalar field is set when its bit is in
+// v.Has; the three lists are appended element by element (which sets their bits).
+func verifRecordFrom(v *VerifRecord) *sessionRecord {
+	p := &sessionRecord{}
+	if v.Has&(1<<recComparer) != 0 {
+		p.setComparer(v.Comparer)
+	}
+	if v.Has&(1<<recJournalNum) != 0 {
+		p.setJournalNum(v.JournalNum)
+	}
+	if v.Has&(1<<recPrevJournalNum) != 0 {
+		p.setPrevJournalNum(v.PrevJournalNum)
+	}
+	if v.Has&(1<<recNextFileNum) != 0 {
+		p.setNextFileNum(v.NextFileNum)
+	}
+	if v.Has&(1<<recSeqNum) != 0 {
+		p.setSeqNum(v.SeqNum)
+	}
+	for _, r := range v.CompPtrs {
+		p.addCompPtr(r.Level, internalKey(r.IKey))
+	}
+	for _, r := range v.Added {
+		p.addTable(r.Level, r.Num, r.Size, internalKey(r.Imin), internalKey(r.Imax))
+	}
+	for _, r := range v.Deleted {
+		p.delTable(r.Level, r.Num)
+	}
+	return p
+}
+
+// VerifRecordEncode encodes the record built from v with sessionRecord.encode. has is the hasRec mask of the
+// record that was encoded; panicked is the recovered panic value's text ("" if none).
+func VerifRecordEncode(v *VerifRecord) (b []byte, has int, err error, panicked string) {
+	defer func() {
+		if x := recover(); x != nil {
+			panicked = fmt.Sprint(x)
+		}
+	}()
+	p := verifRecordFrom(v)
+	has = p.hasRec
+	buf := &bytes.Buffer{}
+	err = p.encode(buf)
+	return buf.Bytes(), has, err, ""
+}
+
+// VerifRecordDecode runs sessionRecord.decode on b with a fresh record, reading from a bytes.Buffer as
+// session.recover does. It returns the record reached (also on an error), the error, whether the error is an
+// ErrCorrupted, and the text of a recovered panic.
+func VerifRecordDecode(b []byte) (v *VerifRecord, err error, corrupted bool, panicked string) {
+	p := &sessionRecord{}
+	defer func() {
+		if x := recover(); x != nil {
+			panicked = fmt.Sprint(x)
+			v = verifRecordOf(p)
+		}
+	}()
+	err = p.decode(bytes.NewBuffer(append([]byte{}, b...)))
+	return verifRecordOf(p), err, err != nil && errors.IsCorrupted(err), ""
+}
+
+// VerifRecordReset applies resetCompPtrs / resetAddedTables / resetDeletedTables to the record built from v.
+func VerifRecordReset(v *VerifRecord, compPtrs, added, deleted bool) *VerifRecord {
+	p := verifRecordFrom(v)
+	if compPtrs {
+		p.resetCompPtrs()
+	}
+	if added {
+		p.resetAddedTables()
+	}
+	if deleted {
+		p.resetDeletedTables()
+	}
+	return verifRecordOf(p)
+}
+
+// VerifSessionState is what session.recover rebuilt.
+type VerifSessionState struct {
+	JournalNum     int64
+	PrevJournalNum int64
+	NextFileNum    int64
+	SeqNum         uint64
+	Manifest       storage.FileDesc
+	Version        []VerifTable
+	NumLevels      int
+	CompPtrs       [][]byte
+}
+
+// VerifSessionRecover opens a session on stor and runs session.recover (nothing else: no journal replay, no
+// write). A panic inside recover is returned as text.
+func VerifSessionRecover(stor storage.Storage, o *opt.Options) (st *VerifSessionState, err error, corrupted bool, panicked string) {
+	s, err := newSession(stor, o)
+	if err != nil {
+		return nil, err, false, ""
+	}
+	defer func() {
+		verifMinSeqs.Delete(s)
+		s.close()
+		s.release()
+	}()
+	func() {
+		defer func() {
+			if x := recover(); x != nil {
+				panicked = fmt.Sprint(x)
+			}
+		}()
+		err = s.recover()
+	}()
+	if panicked != "" || err != nil {
+		return nil, err, err != nil && errors.IsCorrupted(err), panicked
+	}
+	v := s.version()
+	defer v.release()
+	st = &VerifSessionState{
+		JournalNum:     s.stJournalNum,
+		PrevJournalNum: s.stPrevJournalNum,
+		NextFileNum:    s.nextFileNum(),
+		SeqNum:         s.stSeqNum,
+		Manifest:       s.manifestFd,
+		Version:        verifDumpLevels(v.levels),
+		NumLevels:      len(v.levels),
+	}
+	for _, k := range s.stCompPtrs {
+		if k == nil {
+			st.CompPtrs = append(st.CompPtrs, nil)
+		} else {
+			st.CompPtrs = append(st.CompPtrs, append([]byte{}, k...))
+		}
+	}
+	return st, nil, false, ""
+}
